@@ -1,6 +1,7 @@
 import Pms.Lemmas.Hess
 import Pms.Lemmas.HessCalc
 import Mathlib.Algebra.BigOperators.Field
+import Mathlib.Analysis.Calculus.Deriv.Add
 /-! Helper lemmas for C11 over ℝ: the regenerated terms packaged as `Prims ℝ`, symmetry of blocks / cutoff test,
 row sums of the plain Hessian. -/
 open Finset Real
@@ -89,5 +90,79 @@ noncomputable def pairBlock (d : ℕ) (v : ℕ → ℝ) (r s1 k s2 : ℝ) (a b :
 `s(|v|) − s(r_c) − (|v| − r_c)·k`, `k = s'(r_c)` when the force shift is on, `0` otherwise -/
 noncomputable def pairEnergy (s : ℝ → ℝ) (k rc : ℝ) (d : ℕ) (v : ℕ → ℝ) : ℝ :=
   s (rad d v) - s rc - (rad d v - rc) * k
+
+/-- positions with coordinate (p, β) replaced by t -/
+def updPos (X : ℕ → ℕ → ℝ) (p β : ℕ) (t : ℝ) : ℕ → ℕ → ℝ := Function.update X p (Function.update (X p) β t)
+
+/-- separation vector of the ordered pair (i, j): `X_i − X_j + c_ij` (c_ij = the lattice vector removed by the minimum image,
+locally constant) -/
+def sep (c : ℕ → ℕ → ℕ → ℝ) (X : ℕ → ℕ → ℝ) (i j : ℕ) : ℕ → ℝ := fun k => X i k - X j k + c i j k
+
+/-- gradient field of the total pair energy: `G_{pα}(X) = Σ_{j in cutoff of p} (s'_{pj}(r) − k_{pj})·(sep_{pj})_α / r` -/
+noncomputable def gradField (n d : ℕ) (cut : ℕ → ℕ → Bool) (s1 : ℕ → ℕ → ℝ → ℝ) (kk : ℕ → ℕ → ℝ)
+    (c : ℕ → ℕ → ℕ → ℝ) (X : ℕ → ℕ → ℝ) (p α : ℕ) : ℝ :=
+  ∑ j ∈ range n, if cut p j = true then gradPhi (s1 p j) (kk p j) d (sep c X p j) α else 0
+
+theorem sep_upd_left (c : ℕ → ℕ → ℕ → ℝ) (X : ℕ → ℕ → ℝ) (p j β : ℕ) (t : ℝ) (hj : j ≠ p) :
+    sep c (updPos X p β t) p j = Function.update (sep c X p j) β (t - X j β + c p j β) := by
+  funext k
+  unfold sep updPos
+  rw [Function.update_self, Function.update_of_ne hj]
+  by_cases hk : k = β
+  · subst hk; simp
+  · simp [Function.update_of_ne hk]
+
+theorem sep_upd_right (c : ℕ → ℕ → ℕ → ℝ) (X : ℕ → ℕ → ℝ) (p j β : ℕ) (t : ℝ) (hj : j ≠ p) :
+    sep c (updPos X j β t) p j = Function.update (sep c X p j) β (X p β - t + c p j β) := by
+  funext k
+  unfold sep updPos
+  rw [Function.update_self, Function.update_of_ne hj.symm]
+  by_cases hk : k = β
+  · subst hk; simp
+  · simp [Function.update_of_ne hk]
+
+theorem sep_upd_other (c : ℕ → ℕ → ℕ → ℝ) (X : ℕ → ℕ → ℝ) (p j q β : ℕ) (t : ℝ) (h1 : q ≠ p) (h2 : q ≠ j) :
+    sep c (updPos X q β t) p j = sep c X p j := by
+  funext k
+  unfold sep updPos
+  rw [Function.update_of_ne h1.symm, Function.update_of_ne h2.symm]
+
+/-- total documented pair energy: every unordered pair once (= half the sum over ordered pairs inside the cutoff) -/
+noncomputable def totalEnergy (n d : ℕ) (cut : ℕ → ℕ → Bool) (s : ℕ → ℕ → ℝ → ℝ) (kk rc : ℕ → ℕ → ℝ)
+    (c : ℕ → ℕ → ℕ → ℝ) (X : ℕ → ℕ → ℝ) : ℝ :=
+  (1 / 2) * ∑ i ∈ range n, ∑ j ∈ range n,
+    if cut i j = true then pairEnergy (s i j) (kk i j) (rc i j) d (sep c X i j) else 0
+
+theorem nrm2_neg (d : ℕ) (v : ℕ → ℝ) : nrm2 d (fun k => - v k) = nrm2 d v := by
+  unfold nrm2
+  rw [sumRange_eq, sumRange_eq]
+  exact Finset.sum_congr rfl fun k _ => by ring
+
+theorem gradPhi_neg (s1 : ℝ → ℝ) (k : ℝ) (d : ℕ) (v : ℕ → ℝ) (a : ℕ) :
+    gradPhi s1 k d (fun k => - v k) a = - gradPhi s1 k d v a := by
+  unfold gradPhi rad
+  rw [nrm2_neg]
+  ring
+
+theorem sep_swap (c : ℕ → ℕ → ℕ → ℝ) (hanti : ∀ i j k, c j i k = - c i j k) (X : ℕ → ℕ → ℝ) (i j : ℕ) :
+    sep c X j i = fun k => - sep c X i j k := by
+  funext k
+  unfold sep
+  rw [hanti i j k]
+  ring
+
+
+theorem specH_congr (n : ℕ) (cut : ℕ → ℕ → Bool) (B B' : ℕ → ℕ → ℕ → ℕ → ℝ) (i a j b : ℕ)
+    (h : ∀ k, cut i k = true → B i k a b = B' i k a b) : specH n cut B i a j b = specH n cut B' i a j b := by
+  unfold specH
+  split
+  · rw [sumRange_eq, sumRange_eq]
+    refine Finset.sum_congr rfl fun k _ => ?_
+    by_cases hc : k ≠ i ∧ cut i k = true
+    · simp only [hc, and_self, if_true, ne_eq, not_false_eq_true]; exact h k hc.2
+    · simp [hc]
+  · by_cases hc : cut i j = true
+    · simp only [hc, if_true]; rw [h j hc]
+    · simp [hc]
 
 end Pms.C11
